@@ -379,6 +379,54 @@ def rule_dp6(ctx: Ctx) -> RuleResult:
                                        "the item is not part of the batch returned on this path: %s" % show(batch), trace_of(p)))
     tparams = m.scopes[termfn].params
     TACC = ("arg", tparams[0])
+    A0, A1 = ("sub", TACC, ("const", 0)), ("sub", TACC, ("const", 1))
+
+    def atom_kind(t, pol):
+        """'not-emitted' (the pending list was not flagged complete by the last item) / 'nonempty' (it holds
+        an item) / None, for the atom t holding with polarity pol"""
+        t = _no_epoch(t)
+        if t[0] == "not":
+            return atom_kind(t[1], not pol)
+        if t[0] == "call" and t[1] == ("builtin", "bool") and len(t[2]) == 1:
+            return atom_kind(t[2][0], pol)
+        if t == A1:
+            return "not-emitted" if not pol else None
+        if t[0] == "cmp" and t[1] in ("Is", "Eq", "IsNot", "NotEq") and A1 in (t[2], t[3]):
+            other = t[3] if t[2] == A1 else t[2]
+            if other[0] == "const" and other[1] in (True, False) and isinstance(other[1], bool):
+                same = t[1] in ("Is", "Eq")
+                holds_false = (other[1] is False) == same        # the atom, when true, says acc[1] is False
+                return "not-emitted" if holds_false == pol else None
+            return None
+        if t == A0 or t == ("call", ("builtin", "len"), (A0,)):
+            return "nonempty" if pol else None
+        nf = normalise_cmp(t, pol)
+        if nf is not None:
+            op, co, c = nf
+            co = dict(co)
+            ln = [k for k in co if k == ("call", ("builtin", "len"), (A0,))]
+            if len(co) == 1 and len(ln) == 1:
+                sgn = 1 if co[ln[0]] > 0 else -1
+                op2 = op if sgn == 1 else {"GtE": "LtE", "LtE": "GtE", "Gt": "Lt", "Lt": "Gt"}.get(op, op)
+                c2, k2 = c * sgn, co[ln[0]] * sgn
+                if k2 == 1 and ((op2 == "Gt" and c2 == 0) or (op2 == "GtE" and c2 == -1) or (op2 == "NotEq" and c2 == 0)):
+                    return "nonempty"
+        return None
+
+    def conj(flag):
+        """atoms [(term, polarity)] whose conjunction the flag value is, or None"""
+        if flag[0] == "boolop" and flag[1] == "and":
+            out = []
+            for x in flag[2:]:
+                sub = conj(x)
+                if sub is None:
+                    return None
+                out += sub
+            return out
+        if flag[0] == "boolop":
+            return None
+        return [(flag, True)]
+    true_paths = []
     for p in ctx.fn_paths(m, termfn):
         r.paths += 1
         v = p.value
@@ -389,6 +437,25 @@ def rule_dp6(ctx: Ctx) -> RuleResult:
             "DP-6", "%s::batch._terminate{flag}" % rel, m.where(termfn),
             "the terminator flags the pending batch with %s whatever the accumulator holds: an already emitted full batch is emitted "
             "again when the length is a multiple of batch_size, and an empty batch is emitted for an empty source" % (show(flag) if flag else None), trace_of(p)))
+        if not ok:
+            continue
+        r.ob(v[1][0] == "sub" and v[1][1] == TACC and v[1][2] == ("const", 0), lambda: Finding("DP-6", "%s::batch._terminate{batch}" % rel, m.where(termfn),
+                                         "the terminator must hand over the pending list itself; it returns %s" % show(v[1]), trace_of(p)))
+        decs = [(e.test, e.outcome) for e in p.trace if e.k == "decision"]
+        if flag == ("const", False):
+            continue
+        atoms = decs + ([] if flag == ("const", True) else (conj(flag) or [(flag, None)]))
+        true_paths.append((p, atoms))
+    # exactly: flagged iff the pending list was not already emitted and is not empty
+    exact = len(true_paths) == 1
+    if exact:
+        kinds = sorted(str(atom_kind(t, pol)) if pol is not None else "None" for t, pol in true_paths[0][1])
+        exact = kinds == ["nonempty", "not-emitted"]
+    r.ob(exact, lambda: Finding(
+        "DP-6", "%s::batch._terminate{flag-form}" % rel, m.where(termfn),
+        "at completion the pending list must be flagged exactly when it was not already emitted as a full batch and holds at least one item "
+        "(flag = acc[1] is False and len(acc[0]) > 0); the flag is true under: %s" % (
+            [[("%s%s" % ("" if pol else "not ", show(t))) for t, pol in atoms] for _, atoms in true_paths] or "no condition")))
     # downstream selection by the flag (component 1) and projection of the batch (component 0)
     fn = m.enclosing_function(call)
     par = m.parent.get(call)
@@ -417,6 +484,17 @@ def rule_dp6(ctx: Ctx) -> RuleResult:
                                        "after the scan, batches must be selected by the flag (component 1 is True) and projected to the list (component 0)"))
     r.require_instances(2)
     return r
+
+
+def _no_epoch(t):
+    """the term without the read epochs of subscripts / len() (reads of the same unmodified value)"""
+    if not isinstance(t, tuple) or not t:
+        return t
+    if t[0] == "sub" and len(t) == 4:
+        return ("sub", _no_epoch(t[1]), _no_epoch(t[2]))
+    if t[0] == "call" and len(t) == 4 and t[1] == ("builtin", "len"):
+        return ("call", t[1], tuple(_no_epoch(x) for x in t[2]))
+    return tuple(_no_epoch(x) if isinstance(x, tuple) else x for x in t)
 
 
 def _term_of_literal(node):
